@@ -301,7 +301,7 @@ class MailboxData(MailboxDataInterface[Message]):
                      flag_set: frozenset[Flag], mode: FlagOp) -> Message:
         msg = await self.get(uid, cached_msg)
         msg.permanent_flags = mode.apply(msg.permanent_flags, flag_set)
-        if not msg.expunged:
+        if not msg.expunged and uid in self._messages:
             self._mod_sequences.update([uid])
             self._updated.set()
         return msg
